@@ -410,6 +410,10 @@ func (m *Model) hset(s *Session, a []string, nx bool) Reply {
 		o.H[a[i]] = a[i+1]
 	}
 	_ = changed
+	if nx && added == 0 {
+		// HSETNX on an existing field changes nothing and does not count as a modification
+		return Int(0)
+	}
 	m.set(s.DB, a[1], o)
 	return Int(added)
 }
